@@ -313,6 +313,12 @@ def replay(rp):
     of 1/2|x|^2 with one equality (h = x0 - c) and one inequality (g = x1 - d) whose values equal the model's fc"""
     import replaylib
     out = {'reproduced': False, 'runs': []}
+    if rp['target'] == 'al_do_minimize':
+        exe = replaylib.build_with_library('replay/C05_al_replay.cpp', 'C05_al_replay')
+        rc, so, se = replaylib.run_driver(exe, [], timeout=900)
+        out['runs'].append({'exit': rc, 'output': so.strip()[-1500:]})
+        out['reproduced'] = rc == 1
+        return out
     exe = replaylib.build_with_library('replay/C05_replay.cpp', 'C05_replay')
     tried = set()
     for fo in rp['failed_obligations']:
